@@ -56,6 +56,39 @@ def close(a, b, rel=1e-9):
     return z3.And(d <= tol * m, -d <= tol * m)
 
 
+def close_sum(v, terms, rel=1e-9, scale=1):
+    """v == scale * sum(terms) up to a tolerance relative to the magnitude of the TERMS (sum |t|), which is what float
+    (and the inexact atom constants) can deliver when terms cancel"""
+    v = v if z3.is_expr(v) else lift(v)
+    s = sum(terms, z3.RealVal(0)) * scale
+    mag = sum((z3.If(t >= 0, t, -t) for t in terms), z3.RealVal(0)) * (scale if not z3.is_expr(scale) else scale)
+    tol = z3.RealVal(str(rel)) * mag
+    return z3.And(v - s <= tol, s - v <= tol)
+
+
+def linear_coeffs(v, variables):
+    """coefficients of a term that is linear in `variables`: returns (const, {name: Fraction}) by evaluating the term at
+    0 and at the unit vectors (z3 substitute + simplify).  The caller must still prove v == const + sum c_i x_i."""
+    from fractions import Fraction
+    zero = [(x, z3.RealVal(0)) for x in variables]
+    def val(e):
+        e = z3.simplify(e)
+        if z3.is_int_value(e):
+            return Fraction(e.as_long())
+        if z3.is_rational_value(e):
+            return Fraction(e.numerator_as_long(), e.denominator_as_long())
+        raise ValueError(f"not a constant: {str(e)[:80]}")
+    c0 = val(z3.substitute(v, *zero))
+    out = {}
+    for i, x in enumerate(variables):
+        sub = list(zero)
+        sub[i] = (x, z3.RealVal(1))
+        c = val(z3.substitute(v, *sub)) - c0
+        if c != 0:
+            out[x.decl().name()] = c
+    return c0, out
+
+
 def jsonable(x):
     import numpy as np
     from fractions import Fraction
@@ -275,6 +308,23 @@ class Case:
             return "violated"
         rep["nonreproducing"].append(dict(label=label, inputs=inputs, detail=detail))
         return "nonreproducing"
+
+    def prove_linear_sum(self, path, v, expected, label, rel=1e-9, replay=None, exclude=()):
+        """v (linear in the inputs) == sum_i expected[x_i] * x_i up to rel.  Decided as: (1) SMT: pc |- v == c0 + sum c_i x_i
+        for the extracted rational coefficients (pure LRA identity), (2) |c_i - expected_i| <= rel*|expected_i| for every
+        input, c0 == 0.  Equivalent to the tolerance claim for linear terms and avoids 2^n absolute-value case splits."""
+        from fractions import Fraction
+        try:
+            c0, cs = linear_coeffs(v, self.inputs)
+        except ValueError as ex:
+            return self.prove(path, False, label + " (term not linear)", replay=replay)
+        ident = v == z3.RealVal(str(c0)) + sum((z3.RealVal(str(c)) * z3.Real(n) for n, c in cs.items()), z3.RealVal(0))
+        ok = c0 == 0
+        for n in set(cs) | set(expected):
+            c, e = cs.get(n, Fraction(0)), Fraction(expected.get(n, 0))
+            if abs(c - e) > Fraction(rel).limit_denominator(10**15) * abs(e):
+                ok = False
+        return self.prove(path, z3.And(ident, z3.BoolVal(ok)), label, replay=replay, exclude=exclude)
 
     def ground(self, ok: bool, label: str, replay_rec=None):
         """ground obligation evaluated on the real code (no solver quantification)."""
